@@ -1,16 +1,65 @@
-import TsVerif.C17.WellNested
+import TsVerif.C17.MultiOrder
+import TsVerif.C17.MergeTerm
 /-!
-# C17 — well-nestedness with layers created during the run: the table premises
+# C17 — well-nestedness with layers created during the run: table premises and the counting lemmas
 
-`refsOf`/`tree`: the layer ids reachable from an id through injection captures (with multiplicity).
-`closureNodup`: every layer id is referenced at most once (from `top` or from an injection capture of
-a reachable layer).  `injTieOk`: when an injection capture at byte `p` creates a layer that has a
-span capture at `p`, no layer at least as deep as the creating one and shallower than the new one has
-a non-empty span capture starting at `p` (such a span could already be open when the deeper layer
-appears; in the real code injection patterns precede highlight patterns in the combined query, so the
-deeper layer always exists before a span of its parent is opened at the same byte).
+`isSpan`/`spanCaps`: the captures that can become a span.  `refsOf`/`tree`: the layer ids reachable from
+an id through injection captures, with multiplicity.  `closureNodup`: every layer id is referenced at
+most once (from `top` or from an injection capture of a reachable layer).  `pend`/`allP`: the ids a
+state still "owns" — each live layer's id and the trees of its pending injection references; the
+invariant is that this list has no duplicates (an injection step moves ids from a tree to the live
+list, consuming captures only removes ids).  `injTieOkP`: when an injection capture at byte `p`
+creates a layer with a span capture at `p`, no non-empty span capture starting at `p` of a layer
+shallower than the new one can already be open: none BEFORE the injection capture in the creating
+layer, none at all in any other layer.  (In the real code injection patterns precede highlight
+patterns in the combined query, so the deeper layer exists before its parent opens a span there.)
 -/
 namespace TsVerif.C17
+
+/-- The capture yields a recognised highlight. -/
+def hlSome (c : RCap) : Bool := match c.kind with | .hl (some _) => true | _ => false
+
+/-- The capture's node has some capture with a recognised highlight in the same layer. -/
+def isSpan (d : LayerDef) (c : RCap) : Bool := d.caps.any fun c' => c'.node == c.node && hlSome c'
+
+/-- The captures that can become a SPAN (`collapse` keeps the last highlight capture of the node). -/
+def spanCaps (d : LayerDef) : List RCap := d.caps.filter (isSpan d)
+
+/-- `collapse` only returns a highlight that some capture of the node carries. -/
+theorem collapse_fst_some {node hh : Nat} : ∀ (caps : List RCap) (h : Option Nat),
+    (collapse node h caps).1 = some hh → h = some hh ∨ ∃ c' ∈ caps, c'.node = node ∧ c'.kind = .hl (some hh) := by
+  intro caps
+  induction caps with
+  | nil => intro h hc; exact Or.inl (by simpa [collapse] using hc)
+  | cons x r ih =>
+    intro h hc
+    unfold collapse at hc
+    by_cases hx : x.node = node
+    · simp only [hx, if_true] at hc
+      rcases ih _ hc with h1 | ⟨c', h1, h2, h3⟩
+      · refine Or.inr ⟨x, List.mem_cons_self, hx, ?_⟩
+        cases hk : x.kind with
+        | hl h' => rw [hk] at h1; simp only at h1; rw [h1]
+        | inj ids => rw [hk] at h1; simp at h1
+      · exact Or.inr ⟨c', List.mem_cons_of_mem _ h1, h2, h3⟩
+    · simp only [hx, if_false] at hc
+      exact Or.inl hc
+
+/-- what `collapse` leaves is a suffix -/
+theorem collapse_suffix (node : Nat) : ∀ (caps : List RCap) (h : Option Nat),
+    ∃ mid, caps = mid ++ (collapse node h caps).2 := by
+  intro caps
+  induction caps with
+  | nil => intro h; exact ⟨[], by simp [collapse]⟩
+  | cons x r ih =>
+    intro h
+    unfold collapse
+    by_cases hx : x.node = node
+    · simp only [hx, if_true]
+      obtain ⟨mid, hm⟩ := ih (match x.kind with | .hl h' => h' | .inj _ => none)
+      exact ⟨x :: mid, congrArg (x :: ·) hm⟩
+    · simp only [hx, if_false]
+      exact ⟨[], rfl⟩
 
 def injIds (c : RCap) : List Nat := match c.kind with | .inj ids => ids | .hl _ => []
 
@@ -27,6 +76,7 @@ def tree (defs : List LayerDef) : Nat → Nat → List Nat
   | 0, j => [j]
   | k + 1, j => j :: (refsOf defs j).flatMap (tree defs k)
 
+/-- Every layer id is referenced at most once. -/
 def closureNodup (defs : List LayerDef) (top : List Nat) : Bool :=
   decide (top.flatMap (tree defs defs.length)).Nodup
 
@@ -40,17 +90,273 @@ def defsNiceD (defs : List LayerDef) : Bool :=
       | none => true
     | _ => true
 
-def injTieOk (defs : List LayerDef) : Bool :=
-  defs.all fun di => di.caps.all fun c => (injIds c).all fun j =>
-    match defs[j]? with
-    | none => true
-    | some dj =>
-      !((spanCaps dj).any fun c' => c'.s == c.s) ||
-      defs.all fun dk => (spanCaps dk).all fun a =>
-        !(a.s == c.s && a.s < a.e) || !(decide (di.depth ≤ dk.depth) && decide (dk.depth < dj.depth))
+theorem defsNice_of_D {defs : List LayerDef} (h : defsNiceD defs = true) : DefsNice defs := by
+  simp only [defsNiceD, Bool.and_eq_true] at h
+  refine ⟨fun d hd => List.all_eq_true.mp h.1 d hd, ?_⟩
+  intro d hd c hc ids hk j hj d' hd' c' hc'
+  have h1 := List.all_eq_true.mp (List.all_eq_true.mp h.2 d hd) c hc
+  simp only [hk] at h1
+  have h2 := List.all_eq_true.mp h1 j hj
+  simp only [hd'] at h2
+  simpa using List.all_eq_true.mp h2 c' hc'
 
-/-- The decidable premise of `merge_well_nested_dynamic_partial`. -/
-def dynNice (defs : List LayerDef) (top : List Nat) : Bool :=
-  defsNiceD defs && refsUp defs && closureNodup defs top && crossNice defs && injTieOk defs
+/-- See the header. -/
+def injTieOkP (defs : List LayerDef) : Bool :=
+  (List.range defs.length).all fun i =>
+    match defs[i]? with
+    | none => true
+    | some di => (List.range di.caps.length).all fun idx =>
+      match di.caps[idx]? with
+      | none => true
+      | some c => (injIds c).all fun j =>
+        match defs[j]? with
+        | none => true
+        | some dj =>
+          !((spanCaps dj).any fun c' => c'.s == c.s) ||
+          (List.range defs.length).all fun k =>
+            match defs[k]? with
+            | none => true
+            | some dk =>
+              (if k = i then (di.caps.take idx).filter (isSpan di) else spanCaps dk).all fun a =>
+                !(a.s == c.s && decide (a.s < a.e)) || !decide (dk.depth < dj.depth)
+
+theorem lt_of_getElem? {α : Type} {l : List α} {i : Nat} {x : α} (h : l[i]? = some x) : i < l.length := by
+  rcases Nat.lt_or_ge i l.length with h' | h'
+  · exact h'
+  · rw [List.getElem?_eq_none h'] at h; simp at h
+
+theorem injTieOkP_spec {defs : List LayerDef} (h : injTieOkP defs = true) {i j k : Nat} {di dj dk : LayerDef}
+    {pre post : List RCap} {c c' a : RCap}
+    (hi : defs[i]? = some di) (hcaps : di.caps = pre ++ c :: post) (hj : j ∈ injIds c) (hdj : defs[j]? = some dj)
+    (hc' : c' ∈ spanCaps dj) (hs' : c'.s = c.s) (hk : defs[k]? = some dk)
+    (ha : if k = i then a ∈ pre ∧ isSpan di a = true else a ∈ spanCaps dk) (has : a.s = c.s) (hne : a.s < a.e) :
+    ¬ dk.depth < dj.depth := by
+  have h1 := List.all_eq_true.mp h i (List.mem_range.mpr (lt_of_getElem? hi))
+  simp only [hi] at h1
+  have hidx : pre.length < di.caps.length := by rw [hcaps]; simp
+  have h2 := List.all_eq_true.mp h1 pre.length (List.mem_range.mpr hidx)
+  have hget : di.caps[pre.length]? = some c := by rw [hcaps]; simp
+  simp only [hget] at h2
+  have h3 := List.all_eq_true.mp h2 j hj
+  simp only [hdj] at h3
+  have hany : ((spanCaps dj).any fun c' => c'.s == c.s) = true :=
+    List.any_eq_true.mpr ⟨c', hc', by simp [hs']⟩
+  simp only [hany, Bool.not_true, Bool.false_or] at h3
+  have h4 := List.all_eq_true.mp h3 k (List.mem_range.mpr (lt_of_getElem? hk))
+  simp only [hk] at h4
+  have htake : di.caps.take pre.length = pre := by rw [hcaps]; simp
+  have hmem : a ∈ (if k = i then (di.caps.take pre.length).filter (isSpan di) else spanCaps dk) := by
+    by_cases hki : k = i
+    · rw [if_pos hki] at ha ⊢
+      rw [htake]
+      exact List.mem_filter.mpr ha
+    · rw [if_neg hki] at ha ⊢
+      exact ha
+  have h5 := List.all_eq_true.mp h4 a hmem
+  simp only [has, beq_self_eq_true, Bool.true_and, Bool.or_eq_true, Bool.not_eq_true', decide_eq_false_iff_not,
+    decide_eq_true_eq] at h5
+  rcases h5 with h5 | h5
+  · exact absurd (by omega : c.s < a.e) h5
+  · exact h5
+
+/-! ## the ids a state owns -/
+
+def pend (defs : List LayerDef) (y : MLayer) : List Nat :=
+  y.id :: (refsC y.caps).flatMap (tree defs defs.length)
+
+def allP (defs : List LayerDef) (ls : List MLayer) : List Nat := ls.flatMap (pend defs)
+
+theorem allP_cons (defs : List LayerDef) (y : MLayer) (r : List MLayer) :
+    allP defs (y :: r) = pend defs y ++ allP defs r := by simp [allP]
+
+theorem allP_append (defs : List LayerDef) (a b : List MLayer) :
+    allP defs (a ++ b) = allP defs a ++ allP defs b := by simp [allP]
+
+theorem refsOf_gt {defs : List LayerDef} (hr : refsUp defs = true) {j r : Nat} (h : r ∈ refsOf defs j) : j < r := by
+  unfold refsOf at h
+  cases hd : defs[j]? with
+  | none => rw [hd] at h; simp at h
+  | some d =>
+    rw [hd] at h
+    simp only [refsC, List.mem_flatMap] at h
+    obtain ⟨c, hc, hrc⟩ := h
+    unfold injIds at hrc
+    cases hk : c.kind with
+    | hl _ => rw [hk] at hrc; simp at hrc
+    | inj ids => rw [hk] at hrc; exact refsUp_spec hr hd hc hk hrc
+
+theorem flatMap_congr_mem {α β : Type} (l : List α) (f g : α → List β) (h : ∀ x ∈ l, f x = g x) :
+    l.flatMap f = l.flatMap g := by
+  induction l with
+  | nil => rfl
+  | cons x r ih =>
+    simp only [List.flatMap_cons]
+    rw [h x List.mem_cons_self, ih (fun y hy => h y (List.mem_cons_of_mem _ hy))]
+
+/-- with injections referring upwards the tree of `j` is complete after `length - j` levels -/
+theorem tree_stable {defs : List LayerDef} (hr : refsUp defs = true) :
+    ∀ k j, defs.length ≤ j + k → tree defs (k + 1) j = tree defs k j := by
+  intro k
+  induction k with
+  | zero =>
+    intro j h
+    have : refsOf defs j = [] := by
+      unfold refsOf
+      rw [List.getElem?_eq_none (by omega)]
+    simp [tree, this]
+  | succ k ih =>
+    intro j h
+    show j :: (refsOf defs j).flatMap (tree defs (k + 1)) = j :: (refsOf defs j).flatMap (tree defs k)
+    rw [flatMap_congr_mem _ _ _ (fun r hr' => ih r (by have := refsOf_gt hr hr'; omega))]
+
+theorem mkLayer_some {defs : List LayerDef} {j : Nat} {y : MLayer} (h : mkLayer defs j = some y) :
+    ∃ dj, defs[j]? = some dj ∧ y.id = j ∧ y.depth = dj.depth ∧ y.caps = dj.caps ∧ y.ends = [] := by
+  unfold mkLayer at h
+  cases hg : defs[j]? with
+  | none => rw [hg] at h; simp at h
+  | some d =>
+    rw [hg] at h
+    simp only [Option.map_some, Option.some.injEq] at h
+    subst h
+    exact ⟨d, rfl, rfl, rfl, rfl, rfl⟩
+
+/-- a new layer owns exactly the tree of its id -/
+theorem pend_mk {defs : List LayerDef} (hr : refsUp defs = true) {j : Nat} {nl : MLayer}
+    (hm : mkLayer defs j = some nl) : pend defs nl = tree defs defs.length j := by
+  obtain ⟨dj, hdj, hid, _, hcaps, _⟩ := mkLayer_some hm
+  rw [← tree_stable hr defs.length j (by omega)]
+  have e : tree defs (defs.length + 1) j = j :: (refsOf defs j).flatMap (tree defs defs.length) := rfl
+  rw [e]
+  unfold refsOf pend
+  rw [hdj, hid, hcaps]
+
+theorem cnt_sortLayers (defs : List LayerDef) (a : Nat) : ∀ ls : List MLayer,
+    List.count a (allP defs (sortLayers ls)) ≤ List.count a (allP defs ls) := by
+  intro ls
+  induction ls with
+  | nil => simp [sortLayers]
+  | cons l0 rest ih =>
+    unfold sortLayers
+    cases hk : sortKey l0 with
+    | none =>
+      simp only
+      rw [allP_cons, List.count_append]
+      omega
+    | some k =>
+      simp only
+      rw [allP_append, allP_cons, allP_cons]
+      simp only [List.count_append]
+      have := congrArg (fun x => List.count a (allP defs x)) (List.take_append_drop (leadCount k rest) rest)
+      simp only [allP_append, List.count_append] at this
+      omega
+
+theorem cnt_insGo (defs : List LayerDef) (a : Nat) (k : Key) (nl : MLayer) : ∀ ls : List MLayer,
+    List.count a (allP defs (insGo k nl ls)) ≤ List.count a (pend defs nl) + List.count a (allP defs ls) := by
+  intro ls
+  induction ls with
+  | nil => simp [insGo, allP_cons, allP]
+  | cons li r ih =>
+    unfold insGo
+    cases sortKey li with
+    | none =>
+      simp only
+      rw [allP_cons, List.count_append]
+      omega
+    | some ki =>
+      simp only
+      split
+      · simp only [allP_cons, List.count_append]; omega
+      · simp only [allP_cons, List.count_append]; omega
+
+theorem cnt_insertLayer (defs : List LayerDef) (a : Nat) (ls : List MLayer) (nl : MLayer) :
+    List.count a (allP defs (insertLayer ls nl)) ≤ List.count a (allP defs ls) + List.count a (pend defs nl) := by
+  unfold insertLayer
+  cases sortKey nl with
+  | none => simp only; omega
+  | some k =>
+    cases ls with
+    | nil => simp [allP_cons, allP]
+    | cons l0 rest =>
+      simp only [allP_cons, List.count_append]
+      have := cnt_insGo defs a k nl rest
+      omega
+
+theorem cnt_fold (defs : List LayerDef) (hr : refsUp defs = true) (a : Nat) : ∀ (ids : List Nat) (ls : List MLayer),
+    List.count a (allP defs (ids.foldl (insertById defs) ls)) ≤
+      List.count a (allP defs ls) + List.count a (ids.flatMap (tree defs defs.length)) := by
+  intro ids
+  induction ids with
+  | nil => intro ls; simp
+  | cons j r ih =>
+    intro ls
+    simp only [List.foldl_cons, List.flatMap_cons, List.count_append]
+    have h1 := ih (insertById defs ls j)
+    have h2 : List.count a (allP defs (insertById defs ls j)) ≤
+        List.count a (allP defs ls) + List.count a (tree defs defs.length j) := by
+      unfold insertById
+      cases hm : mkLayer defs j with
+      | none => simp only; omega
+      | some nl =>
+        simp only
+        have := cnt_insertLayer defs a ls nl
+        rw [pend_mk hr hm] at this
+        exact this
+    omega
+
+theorem cnt_ids (defs : List LayerDef) (a : Nat) : ∀ ls : List MLayer,
+    List.count a (ls.map (·.id)) ≤ List.count a (allP defs ls) := by
+  intro ls
+  induction ls with
+  | nil => simp [allP]
+  | cons y r ih =>
+    simp only [List.map_cons, allP_cons, List.count_append, pend, List.count_cons]
+    omega
+
+theorem nodup_ids_of_allP {defs : List LayerDef} {ls : List MLayer} (h : (allP defs ls).Nodup) :
+    (ls.map (·.id)).Nodup :=
+  List.nodup_iff_count.mpr fun a => Nat.le_trans (cnt_ids defs a ls) (List.nodup_iff_count.mp h a)
+
+/-- the head layer keeps its id and drops a prefix of its captures -/
+theorem nodup_head_suffix {defs : List LayerDef} {l l' : MLayer} {rest : List MLayer} {mid : List RCap}
+    (hid : l'.id = l.id) (hmid : l.caps = mid ++ l'.caps) (h : (allP defs (l :: rest)).Nodup) :
+    (allP defs (sortLayers (l' :: rest))).Nodup := by
+  refine List.nodup_iff_count.mpr fun a => ?_
+  have h1 := List.nodup_iff_count.mp h a
+  have h2 := cnt_sortLayers defs a (l' :: rest)
+  simp only [allP_cons, List.count_append, pend, hid, hmid, refsC, List.flatMap_append, List.count_cons] at h1 h2
+  omega
+
+/-- the injection step: the ids of the consumed capture move from the pending trees to live layers -/
+theorem nodup_inj_step {defs : List LayerDef} (hr : refsUp defs = true) {l : MLayer} {rest : List MLayer}
+    {c : RCap} {caps' : List RCap} {ids : List Nat} (hc : l.caps = c :: caps') (hk : c.kind = .inj ids)
+    (h : (allP defs (l :: rest)).Nodup) :
+    (allP defs (sortLayers (ids.foldl (insertById defs) ({ l with caps := caps' } :: rest)))).Nodup := by
+  refine List.nodup_iff_count.mpr fun a => ?_
+  have h1 := List.nodup_iff_count.mp h a
+  have h2 := cnt_sortLayers defs a (ids.foldl (insertById defs) ({ l with caps := caps' } :: rest))
+  have h3 := cnt_fold defs hr a ids ({ l with caps := caps' } :: rest)
+  have hi : injIds c = ids := by unfold injIds; rw [hk]
+  simp only [allP_cons, List.count_append, pend, hc, refsC, List.flatMap_cons, List.flatMap_append, hi,
+    List.count_cons] at h1 h3
+  omega
+
+theorem mem_fold_insertById (defs : List LayerDef) : ∀ (ids : List Nat) (ls : List MLayer) (y : MLayer),
+    y ∈ ids.foldl (insertById defs) ls → y ∈ ls ∨ ∃ j ∈ ids, mkLayer defs j = some y := by
+  intro ids
+  induction ids with
+  | nil => intro ls y h; exact Or.inl h
+  | cons j r ih =>
+    intro ls y h
+    simp only [List.foldl_cons] at h
+    rcases ih _ y h with h1 | ⟨j', hj', hm⟩
+    · unfold insertById at h1
+      cases hm : mkLayer defs j with
+      | none => rw [hm] at h1; exact Or.inl h1
+      | some nl =>
+        rw [hm] at h1
+        rcases mem_insertLayer h1 with h2 | h2
+        · exact Or.inl h2
+        · exact Or.inr ⟨j, List.mem_cons_self, by rw [hm, h2]⟩
+    · exact Or.inr ⟨j', List.mem_cons_of_mem _ hj', hm⟩
 
 end TsVerif.C17
